@@ -1,6 +1,22 @@
 import Mathlib.Analysis.SpecialFunctions.Sqrt
+import Mathlib.Data.Matrix.Mul
 import E3nnVerif.Theory.ScalarReal
 import E3nnVerif.Model.Pointwise
+/-
+C09 — lemmas about the model of the pointwise layers (Model/Pointwise.lean) instantiated at `K = ℝ`.
+
+Plan.  `rho A irreps x` is the block action of one group element on a flat feature vector, defined per COPY
+(`expand irreps` lists the copies), so that `simplify`, `+` and block selection are transparent to it.
+  * `Action`: what the layers need from a group element (lengths, `Σx²`, homogeneity, signs on scalars);
+    `OrthFamily.toAction`: every family of orthogonal matrices provides it; `O3Family.twisted`: `(l,odd) = (l,even)⊗0o`.
+  * per-copy forms of the model's block loops (`sqNormsC`, `ewMulC`) and the two key facts
+    `sqNormsC_rhoC` (invariants) and `ewMulC_rhoC[_twisted]` (multiplication by invariant / sign-carrying scalars).
+  * one equivariance theorem per layer: `actBlocks_equivariant`, `normFwd_equivariant`, `normActFwd_equivariant`,
+    `extractFwd_equivariant`, `gateFwd_equivariant`; closed forms `normActFwd_closed_form`, `normFwd_closed_form`,
+    `gateFwd_formula`, `actBlocks_block`; `_Sortcut` bookkeeping `sortcut_wellFormed`, `sortcut_instructions_perm`;
+    `ElementwiseTensorProduct` chunk alignment `expand_ewAlign`.
+  * `Action.inversion` and the grid witness `wit`.
+-/
 
 namespace E3nnVerif.Pointwise
 open E3nnVerif
@@ -997,6 +1013,776 @@ theorem dim_sorted (outs : List Irreps) : dim (sortcut outs).sorted = dim (outs.
   simp only [sortcut]
   rw [h1, ← h2 0]
   exact ((sortIdxFrom_perm 0 _).map _).sum_eq
+
+
+
+/-! ### `ElementwiseTensorProduct` output irreps -/
+
+/-- product of two irreps when the second is a scalar (the general `l` range collapses to `l₁ + l₂`) -/
+def irMul (c1 c2 : Ir) : Ir := (c1.1 + c2.1, c1.2 != c2.2)
+
+theorem zipWith_replicate_append {α β γ} (g : α → β → γ) (n : Nat) (a : α) (b : β) (l1 : List α) (l2 : List β) :
+    List.zipWith g (List.replicate n a ++ l1) (List.replicate n b ++ l2)
+      = List.replicate n (g a b) ++ List.zipWith g l1 l2 := by
+  induction n with
+  | zero => simp
+  | succ n ih => simp [List.replicate_succ, ih]
+
+theorem expand_ewAlign (f : Nat) (a b : Irreps) (hf : a.length + b.length ≤ f) :
+    expand ((ewAlign f a b).map fun (m, ir1, ir2) => (m, ir1.1 + ir2.1, ir1.2 != ir2.2))
+      = List.zipWith irMul (expand a) (expand b) := by
+  induction f generalizing a b with
+  | zero =>
+    have ha : a = [] := List.eq_nil_of_length_eq_zero (by omega)
+    subst ha; simp [ewAlign]
+  | succ f ih =>
+    cases a with
+    | nil => simp [ewAlign]
+    | cons a1 r1 =>
+      cases b with
+      | nil => simp [ewAlign]
+      | cons b1 r2 =>
+        obtain ⟨m1, l1, p1⟩ := a1
+        obtain ⟨m2, l2, p2⟩ := b1
+        simp only [List.length_cons] at hf
+        simp only [ewAlign]
+        split
+        · rename_i h
+          have hm : m2 = m1 + (m2 - m1) := by omega
+          rw [List.map_cons, expand_cons, ih r1 ((m2 - m1, l2, p2) :: r2) (by simp; omega)]
+          conv_rhs => rw [expand_cons, expand_cons, hm, List.replicate_add, List.append_assoc,
+            zipWith_replicate_append]
+          simp [irMul]
+        · split
+          · rename_i h
+            have hm : m1 = m2 + (m1 - m2) := by omega
+            rw [List.map_cons, expand_cons, ih ((m1 - m2, l1, p1) :: r1) r2 (by simp; omega)]
+            conv_rhs => rw [expand_cons, expand_cons, hm, List.replicate_add, List.append_assoc,
+              zipWith_replicate_append]
+            simp [irMul]
+          · have hm : m2 = m1 := by omega
+            subst hm
+            rw [List.map_cons, expand_cons, ih r1 r2 (by omega)]
+            conv_rhs => rw [expand_cons, expand_cons, zipWith_replicate_append]
+            simp [irMul]
+
+theorem expand_ewIrrepsOut (a b : Irreps) :
+    expand (ewIrrepsOut a b) = List.zipWith irMul (expand a) (expand b) := by
+  rw [ewIrrepsOut]
+  simp only []
+  rw [expand_ewAlign _ _ _ (Nat.le_refl _), expand_simplify, expand_simplify]
+
+
+
+/-! ### Activation, full statement -/
+
+theorem activationFwd_eq (irr : Irreps) (acts : List (Option (Act ℝ))) (x : List ℝ) (hx : x.length = dim irr) :
+    activationFwd irr acts x = actBlocks irr acts x := by
+  cases irr with
+  | nil =>
+    have : x = [] := List.eq_nil_of_length_eq_zero (by simpa using hx)
+    subst this; simp [activationFwd, actBlocks]
+  | cons b bs => rfl
+
+theorem activationCtor_ok {irr : Irreps} {dets : List (Option Detect)} {out : Irreps}
+    (h : activationCtor irr dets = .ok out) : irr.length = dets.length ∧ actOutLoop irr dets = .ok out := by
+  unfold activationCtor at h
+  split at h
+  · simp at h
+  · rename_i hne; exact ⟨by simpa using hne, h⟩
+
+/-- `Activation` commutes with the action whenever the constructor accepts and the detection is truthful -/
+theorem activationFwd_equivariant (A : Action) (irr : Irreps) (acts : List (Option (Act ℝ)))
+    (dets : List (Option Detect)) (hS : Specs acts dets) (out : Irreps)
+    (hC : activationCtor irr dets = .ok out) (x : List ℝ) (hx : x.length = dim irr) :
+    ∃ y, activationFwd irr acts x = .ok y ∧ y.length = dim out ∧
+      activationFwd irr acts (rho A irr x) = .ok (rho A out y) := by
+  obtain ⟨hl, hloop⟩ := activationCtor_ok hC
+  rw [activationFwd_eq irr acts x hx, activationFwd_eq irr acts _ (length_rho A irr x hx)]
+  exact actBlocks_equivariant A irr acts dets hS out hloop hl x hx
+
+/-! ### Gate -/
+
+theorem mem_expand (irr : Irreps) (c : Ir) : c ∈ expand irr ↔ ∃ b ∈ irr, 0 < b.1 ∧ c = b.2 := by
+  induction irr with
+  | nil => simp
+  | cons b bs ih =>
+    obtain ⟨m, l, p⟩ := b
+    simp only [expand_cons, List.mem_append, List.mem_replicate, ih, List.mem_cons]
+    constructor
+    · rintro (⟨hm, rfl⟩ | ⟨b, hb, h⟩)
+      · exact ⟨(m, l, p), Or.inl rfl, by omega, rfl⟩
+      · exact ⟨b, Or.inr hb, h⟩
+    · rintro ⟨b, (rfl | hb), h1, h2⟩
+      · exact Or.inl ⟨by simpa using Nat.ne_of_gt h1, h2⟩
+      · exact Or.inr ⟨b, hb, h1, h2⟩
+
+theorem lmaxGuard_scalar (irr : Irreps) (e : Err) (h : lmaxGuard irr e = .ok ()) : ∀ c ∈ expand irr, c.1 = 0 := by
+  intro c hc
+  obtain ⟨b, hb, hpos, rfl⟩ := (mem_expand irr c).mp hc
+  unfold lmaxGuard at h
+  have hlen : irr.length > 0 := List.length_pos_of_mem hb
+  rw [if_pos hlen] at h
+  split at h
+  · simp at h
+  · split at h
+    · simp at h
+    · rename_i hany
+      simp only [List.any_eq_true, not_exists, not_and, Bool.and_eq_true, decide_eq_true_eq] at hany
+      have := hany b hb
+      omega
+
+theorem scalar_cdim (cs : List Ir) (h : ∀ c ∈ cs, c.1 = 0) : cdim cs = cs.length := by
+  induction cs with
+  | nil => rfl
+  | cons c cs ih =>
+    have h0 : c.1 = 0 := h c (by simp)
+    simp [h0, irDim, ih (fun c hc => h c (by simp [hc]))]; omega
+
+theorem scalars_as_map (cs : List Ir) (h : ∀ c ∈ cs, c.1 = 0) : cs = (cs.map (·.2)).map fun p => (0, p) := by
+  induction cs with
+  | nil => rfl
+  | cons c cs ih =>
+    obtain ⟨l, p⟩ := c
+    have h0 : l = 0 := h (l, p) (by simp)
+    subst h0
+    simp only [List.map_cons, List.cons.injEq, true_and]
+    exact ih (fun c hc => h c (by simp [hc]))
+
+theorem actOutLoop_ls (irr : Irreps) (dets : List (Option Detect)) (out : Irreps)
+    (hlen : irr.length = dets.length)
+    (h : actOutLoop irr dets = .ok out) : (expand out).map (·.1) = (expand irr).map (·.1) := by
+  induction irr generalizing dets out with
+  | nil => simp only [actOutLoop, Except.ok.injEq] at h; subst h; rfl
+  | cons b rest ih =>
+    obtain ⟨mul, l, p⟩ := b
+    cases dets with
+    | nil => simp at hlen
+    | cons d ds =>
+      simp only [List.length_cons, Nat.add_right_cancel_iff] at hlen
+      simp only [actOutLoop] at h
+      cases d with
+      | none =>
+        simp only [] at h
+        cases hrec : actOutLoop rest ds with
+        | error e => simp [hrec, Except.map] at h
+        | ok out' =>
+          simp only [hrec, Except.map, Except.ok.injEq] at h
+          subst h
+          simp [ih ds out' hlen hrec]
+      | some d =>
+        simp only [] at h
+        by_cases hl0 : l = 0
+        · subst hl0
+          simp only [bne_self_eq_false, Bool.false_eq_true, if_false] at h
+          cases hq : (if p then d.pAct else some p) with
+          | none => simp [hq] at h
+          | some q =>
+            simp only [hq] at h
+            cases hrec : actOutLoop rest ds with
+            | error e => simp [hrec, Except.map] at h
+            | ok out' =>
+              simp only [hrec, Except.map, Except.ok.injEq] at h
+              subst h
+              simp [ih ds out' hlen hrec]
+        · have : (l != 0) = true := by simpa using hl0
+          simp [this] at h
+
+theorem zipWith_irMul_scalars (cs : List Ir) (ps : List Bool) :
+    List.zipWith irMul cs (ps.map fun p => (0, p)) = List.zipWith twist cs ps := by
+  induction cs generalizing ps with
+  | nil => simp
+  | cons c cs ih =>
+    cases ps with
+    | nil => simp
+    | cons p ps => simp [irMul, twist, ih]
+
+theorem cdim_zipWith_twist (cs : List Ir) (ps : List Bool) (h : ps.length = cs.length) :
+    cdim (List.zipWith twist cs ps) = cdim cs := by
+  induction cs generalizing ps with
+  | nil => simp
+  | cons c cs ih =>
+    cases ps with
+    | nil => simp at h
+    | cons p ps =>
+      simp only [List.length_cons, Nat.add_right_cancel_iff] at h
+      simp [twist, ih ps h]
+
+theorem sortcut_irrepsIn (outs : List Irreps) : (sortcut outs).irrepsIn = simplify (sortcut outs).sorted := rfl
+theorem sortcut_outs (outs : List Irreps) : (sortcut outs).outs = outs.map simplify := rfl
+
+/-- `Gate` commutes with the action: input transformed with the reported (sorted, simplified) `irreps_in`,
+output with the reported `irreps_out = irreps_scalars_out + irreps_gated_out` -/
+theorem gateFwd_equivariant (A : Action) (hA : A.Twisted) (irrS irrG irrY : Irreps)
+    (actS : List (Option (Act ℝ))) (detS : List (Option Detect)) (hSS : Specs actS detS)
+    (actG : List (Option (Act ℝ))) (detG : List (Option Detect)) (hSG : Specs actG detG)
+    (info : GateInfo) (hC : gateCtor irrS detS irrG detG irrY = .ok info)
+    (x : List ℝ) (hx : x.length = dim info.irrepsIn) :
+    ∃ y, gateFwd irrS actS irrG actG irrY x = .ok y ∧ y.length = dim info.irrepsOut ∧
+      gateFwd irrS actS irrG actG irrY (rho A info.irrepsIn x) = .ok (rho A info.irrepsOut y) := by
+  unfold gateCtor at hC
+  cases hg1 : lmaxGuard irrG .gateGates with
+  | error e => simp [hg1] at hC
+  | ok u1 =>
+  cases hg2 : lmaxGuard irrS .gateScalars with
+  | error e => simp [hg1, hg2] at hC
+  | ok u2 =>
+  simp only [hg1, hg2] at hC
+  split at hC
+  · simp at hC
+  rename_i hnum
+  have hnum' : numIrreps irrG = numIrreps irrY := by simpa using hnum
+  cases hcs : activationCtor irrS detS with
+  | error e => simp [hcs] at hC
+  | ok scalarsOut =>
+  cases hcg : activationCtor irrG detG with
+  | error e => simp [hcs, hcg] at hC
+  | ok gatesOut =>
+  simp only [hcs, hcg, Except.ok.injEq] at hC
+  subst hC
+  have hW := sortcut_wellFormed [irrS, irrG, irrY]
+  have hxs : x.length = dim (sortcut [irrS, irrG, irrY]).sorted := by
+    simpa [GateInfo.irrepsIn, sortcut_irrepsIn, dim_simplify] using hx
+  have hE := extractFwd_equivariant A _ x hxs _ _ hW
+  obtain ⟨i1, i2, i3, hins⟩ : ∃ i1 i2 i3, (sortcut [irrS, irrG, irrY]).instructions = [i1, i2, i3] := by
+    simp [sortcut, consecRanges]
+  rw [sortcut_outs, hins] at hW
+  simp only [List.map_cons, List.map_nil] at hW
+  obtain ⟨w1, hW⟩ := List.forall₂_cons.mp hW
+  obtain ⟨w2, hW⟩ := List.forall₂_cons.mp hW
+  obtain ⟨w3, -⟩ := List.forall₂_cons.mp hW
+  rw [hins] at hE
+  simp only [List.map_cons, List.map_nil, sortcut_outs, List.zipWith_cons_cons, List.zipWith_nil_right,
+    rho_simplify] at hE
+  obtain ⟨hE1, hE2⟩ := hE
+  generalize hS : selected (sortcut [irrS, irrG, irrY]).sorted x i1 = S at hE1 hE2
+  generalize hG : selected (sortcut [irrS, irrG, irrY]).sorted x i2 = G at hE1 hE2
+  generalize hY : selected (sortcut [irrS, irrG, irrY]).sorted x i3 = Y at hE1 hE2
+  have lS : S.length = dim irrS := by
+    rw [← hS, selected, length_flatten_blocks _ x hxs _ _ w1, dim_simplify]
+  have lG : G.length = dim irrG := by
+    rw [← hG, selected, length_flatten_blocks _ x hxs _ _ w2, dim_simplify]
+  have lY : Y.length = dim irrY := by
+    rw [← hY, selected, length_flatten_blocks _ x hxs _ _ w3, dim_simplify]
+  obtain ⟨S', hS1, hS2, hS3⟩ := activationFwd_equivariant A irrS actS detS hSS scalarsOut hcs S lS
+  -- the gates are scalars, before and after their activation
+  have u1eq : u1 = () := rfl
+  subst u1eq
+  have scG := lmaxGuard_scalar irrG _ hg1
+  obtain ⟨hlG, hloopG⟩ := activationCtor_ok hcg
+  have hls := actOutLoop_ls irrG detG gatesOut hlG hloopG
+  have scG' : ∀ c ∈ expand gatesOut, c.1 = 0 := by
+    intro c hc
+    have : c.1 ∈ (expand gatesOut).map (·.1) := List.mem_map_of_mem hc
+    rw [hls] at this
+    obtain ⟨c', hc', h⟩ := List.mem_map.mp this
+    rw [← h]; exact scG c' hc'
+  have hps := scalars_as_map _ scG'
+  generalize hpsdef : (expand gatesOut).map (·.2) = ps at hps
+  have lps : ps.length = (expand irrY).length := by
+    have hn : numIrreps gatesOut = numIrreps irrG := by
+      have := congrArg List.length hls
+      simpa [length_expand] using this
+    rw [← hpsdef, List.length_map, length_expand, hn, hnum', length_expand]
+  have hgated : expand (ewIrrepsOut irrY gatesOut) = List.zipWith twist (expand irrY) ps := by
+    rw [expand_ewIrrepsOut, hps, zipWith_irMul_scalars]
+  have hdimGated : dim (ewIrrepsOut irrY gatesOut) = dim irrY := by
+    rw [← cdim_expand, hgated, cdim_zipWith_twist _ _ lps, cdim_expand]
+  have hdimG : dim irrG = numIrreps irrG := by
+    rw [← cdim_expand, scalar_cdim _ scG, length_expand]
+  simp only [GateInfo.irrepsIn, GateInfo.irrepsOut, sortcut_irrepsIn, rho_simplify, dim_append]
+  unfold gateFwd
+  simp only [sortcut_outs, hins, List.map_cons, List.map_nil, hE1, hE2]
+  by_cases hG0 : G.length = 0
+  · have hY0 : expand irrY = [] := by
+      apply List.eq_nil_of_length_eq_zero; rw [length_expand, ← hnum', ← hdimG, ← lG, hG0]
+    have hgo : expand (ewIrrepsOut irrY gatesOut) = [] := by rw [hgated, hY0]; rfl
+    have hlr : (rho A irrG G).length = 0 := by rw [length_rho A irrG G lG, ← lG, hG0]
+    refine ⟨S', ?_, ?_, ?_⟩
+    · simp [hS1, hG0]
+    · rw [hS2, ← cdim_expand (ewIrrepsOut irrY gatesOut), hgo]; rfl
+    · simp only [hS3, hlr]
+      simp [rho, hgo]
+  · obtain ⟨G', hG1, hG2, hG3⟩ := activationFwd_equivariant A irrG actG detG hSG gatesOut hcg G lG
+    have lG' : G'.length = ps.length := by
+      rw [hG2, ← cdim_expand, scalar_cdim _ scG', ← hpsdef, List.length_map]
+    have hlr : (rho A irrG G).length ≠ 0 := by rw [length_rho A irrG G lG, ← lG]; exact hG0
+    have lE : (ewMul irrY G' Y).length = dim irrY := by
+      rw [ewMul_eq, length_ewMulC _ _ _ (by omega) (by rw [cdim_expand]; exact lY), cdim_expand]
+    refine ⟨S' ++ ewMul irrY G' Y, ?_, ?_, ?_⟩
+    · simp [hS1, hG0, hG1]
+    · rw [List.length_append, hS2, lE, hdimGated]
+    · simp only [hS3, hG3]
+      rw [if_pos (by simpa using hlr)]
+      rw [rho_append A scalarsOut _ S' _ hS2]
+      congr 2
+      rw [ewMul_eq, ewMul_eq]
+      conv_lhs => rw [rho, hps, rhoC_scalars A ps G' lG', rho]
+      rw [ewMulC_rhoC_twisted A hA _ ps G' Y lps (by omega) (by rw [cdim_expand]; exact lY)]
+      rw [rho, hgated]
+
+
+
+/-! ### `_Sortcut` uses every input block exactly once -/
+
+theorem flatten_consecRanges (i : Nat) (outs : List Irreps) :
+    (consecRanges i outs).flatten = List.range' i outs.flatten.length := by
+  induction outs generalizing i with
+  | nil => simp [consecRanges]
+  | cons o os ih =>
+    simp only [consecRanges, List.flatten_cons, ih, List.length_append]
+    rw [List.range'_append_1]
+
+/-- the instructions of `_Sortcut`, read one after the other, are a permutation of all block indices of the
+sorted input: no block is dropped, none is used twice -/
+theorem sortcut_instructions_perm (outs : List Irreps) :
+    (sortcut outs).instructions.flatten.Perm (List.range (sortcut outs).sorted.length) := by
+  have hperm := sortIdxFrom_perm 0 (outs.map simplify).flatten
+  have hinv : ((sortIdx (outs.map simplify).flatten).map (·.2)).Perm
+      (List.range' 0 (outs.map simplify).flatten.length) := by
+    rw [← tagFrom_snd]; exact hperm.map _
+  have hnd : ((sortIdx (outs.map simplify).flatten).map (·.2)).Nodup :=
+    hinv.nodup_iff.mpr (List.nodup_range')
+  have hlen : ((sortIdx (outs.map simplify).flatten).map (·.2)).length = (outs.map simplify).flatten.length := by
+    rw [hinv.length_eq]; simp
+  have key : ∀ l : List Nat, l.Nodup → l.map (fun i => l.idxOf i) = List.range l.length := by
+    intro l hl
+    apply List.ext_getElem
+    · simp
+    · intro i h1 h2
+      simp [hl.idxOf_getElem i (by simpa using h1)]
+  simp only [sortcut, List.length_map]
+  rw [← List.map_flatten, flatten_consecRanges]
+  have h1 := (hinv.symm.map fun i => ((sortIdx (outs.map simplify).flatten).map (·.2)).idxOf i)
+  rw [key _ hnd, hlen] at h1
+  rw [List.length_map] at hlen
+  rw [hlen]
+  exact h1
+
+/-! ### per-copy readings -/
+
+/-- the components of copy `u` -/
+def copyAt (cs : List Ir) (u : Nat) (z : List ℝ) : List ℝ :=
+  (z.drop (cdim (cs.take u))).take (match cs[u]? with | some c => irDim c.1 | none => 0)
+
+theorem copyAt_zero (c : Ir) (cs : List Ir) (z : List ℝ) : copyAt (c :: cs) 0 z = z.take (irDim c.1) := by
+  simp [copyAt]
+
+theorem copyAt_succ (c : Ir) (cs : List Ir) (u : Nat) (z : List ℝ) :
+    copyAt (c :: cs) (u + 1) z = copyAt cs u (z.drop (irDim c.1)) := by
+  simp [copyAt, List.drop_drop, Nat.add_comm]
+
+/-- copy `u` of the elementwise product is copy `u` of the features times the `u`-th scalar -/
+theorem copyAt_ewMulC (cs : List Ir) (g y : List ℝ) (hy : y.length = cdim cs) (u : Nat) (a : ℝ)
+    (hu : u < cs.length) (ha : g[u]? = some a) (hg : cs.length ≤ g.length) :
+    copyAt cs u (ewMulC cs g y) = (copyAt cs u y).map (· * a) := by
+  induction cs generalizing g y u with
+  | nil => simp at hu
+  | cons c cs ih =>
+    obtain ⟨l, p⟩ := c
+    cases g with
+    | nil => simp at ha
+    | cons g0 gs =>
+      simp only [cdim_cons] at hy
+      simp only [List.length_cons, Nat.add_le_add_iff_right] at hg
+      have hl : ((y.take (irDim l)).map (· * g0)).length = irDim l := by simp; omega
+      cases u with
+      | zero =>
+        simp only [List.getElem?_cons_zero, Option.some.injEq] at ha
+        subst ha
+        simp only [copyAt_zero, ewMulC, List.take_left' hl]
+      | succ u =>
+        simp only [List.getElem?_cons_succ] at ha
+        simp only [List.length_cons, Nat.add_lt_add_iff_right] at hu
+        simp only [copyAt_succ, ewMulC, List.drop_left' hl]
+        exact ih gs _ (by simp; omega) u hu ha hg
+
+/-- copy `u` of a norm-rescaling is copy `u` times `s_u(‖x_u‖²)` -/
+theorem copyAt_scaleByC (cs : List Ir) (ss : List (ℝ → ℝ)) (x : List ℝ) (hx : x.length = cdim cs) (u : Nat)
+    (s : ℝ → ℝ) (hu : u < cs.length) (hs : ss[u]? = some s) (hss : cs.length ≤ ss.length) :
+    copyAt cs u (scaleByC cs ss x) = (copyAt cs u x).map (· * s (sumSq (copyAt cs u x))) := by
+  induction cs generalizing ss x u with
+  | nil => simp at hu
+  | cons c cs ih =>
+    obtain ⟨l, p⟩ := c
+    cases ss with
+    | nil => simp at hs
+    | cons s0 ss =>
+      simp only [cdim_cons] at hx
+      simp only [List.length_cons, Nat.add_le_add_iff_right] at hss
+      have hl : ((x.take (irDim l)).map (· * s0 (sumSq (x.take (irDim l))))).length = irDim l := by simp; omega
+      cases u with
+      | zero =>
+        simp only [List.getElem?_cons_zero, Option.some.injEq] at hs
+        subst hs
+        simp only [copyAt_zero, scaleByC, List.take_left' hl]
+      | succ u =>
+        simp only [List.getElem?_cons_succ] at hs
+        simp only [List.length_cons, Nat.add_lt_add_iff_right] at hu
+        simp only [copyAt_succ, scaleByC, List.drop_left' hl]
+        exact ih ss _ (by simp; omega) u hu hs hss
+
+/-- entry `u` of the squared norms is `Σ_m x_{u,m}²` of copy `u` -/
+theorem getElem?_sqNormsC (cs : List Ir) (x : List ℝ) (u : Nat) (hu : u < cs.length) :
+    (sqNormsC cs x)[u]? = some (sumSq (copyAt cs u x)) := by
+  induction cs generalizing x u with
+  | nil => simp at hu
+  | cons c cs ih =>
+    obtain ⟨l, p⟩ := c
+    cases u with
+    | zero => simp [sqNormsC, copyAt_zero]
+    | succ u =>
+      simp only [List.length_cons, Nat.add_lt_add_iff_right] at hu
+      simp only [sqNormsC, List.getElem?_cons_succ, copyAt_succ]
+      exact ih _ u hu
+
+
+open Matrix
+
+/-! ### the action of a family of orthogonal matrices -/
+
+def vecOf (n : Nat) (v : List ℝ) : Fin n → ℝ := fun i => v.getD i 0
+
+/-- `D v` for a matrix `D` and a copy `v` -/
+def applyMat {n : Nat} (Q : Matrix (Fin n) (Fin n) ℝ) (v : List ℝ) : List ℝ := List.ofFn (Q *ᵥ vecOf n v)
+
+theorem sumSq_ofFn {n : Nat} (w : Fin n → ℝ) : sumSq (List.ofFn w) = w ⬝ᵥ w := by
+  induction n with
+  | zero => simp [sumSq, dotProduct]
+  | succ n ih =>
+    rw [List.ofFn_succ, sumSq, ih, dotProduct, dotProduct, Fin.sum_univ_succ]
+
+theorem ofFn_vecOf {n : Nat} (v : List ℝ) (h : v.length = n) : List.ofFn (vecOf n v) = v := by
+  subst h
+  apply List.ext_getElem
+  · simp
+  · intro i h1 h2; simp [vecOf, List.getD_eq_getElem?_getD, h2]
+
+theorem vecOf_ofFn {n : Nat} (w : Fin n → ℝ) : vecOf n (List.ofFn w) = w := by
+  funext i; simp [vecOf, List.getD_eq_getElem?_getD]
+
+theorem sumSq_applyMat {n : Nat} (Q : Matrix (Fin n) (Fin n) ℝ) (hQ : Qᵀ * Q = 1) (v : List ℝ)
+    (hv : v.length = n) : sumSq (applyMat Q v) = sumSq v := by
+  conv_rhs => rw [← ofFn_vecOf v hv]
+  rw [applyMat, sumSq_ofFn, sumSq_ofFn, dotProduct_mulVec, ← vecMul_transpose, vecMul_vecMul, hQ, vecMul_one]
+
+theorem applyMat_smul {n : Nat} (Q : Matrix (Fin n) (Fin n) ℝ) (c : ℝ) (v : List ℝ) :
+    applyMat Q (v.map (· * c)) = (applyMat Q v).map (· * c) := by
+  have : vecOf n (v.map (· * c)) = c • vecOf n v := by
+    funext i
+    simp only [vecOf, List.getD_eq_getElem?_getD, List.getElem?_map, Pi.smul_apply, smul_eq_mul]
+    cases v[(i : Nat)]? <;> simp [mul_comm]
+  rw [applyMat, this, mulVec_smul, applyMat, List.map_ofFn]
+  congr 1; funext i; simp [mul_comm]
+
+/-- a family of orthogonal matrices, one per irrep type, trivial on `0e` -/
+structure OrthFamily where
+  Q : (l : Nat) → Bool → Matrix (Fin (irDim l)) (Fin (irDim l)) ℝ
+  orth : ∀ l p, (Q l p)ᵀ * Q l p = 1
+  even0 : Q 0 false = 1
+
+theorem one_by_one (M : Matrix (Fin 1) (Fin 1) ℝ) (h : Mᵀ * M = 1) : M 0 0 = 1 ∨ M 0 0 = -1 := by
+  have := congrFun (congrFun h 0) 0
+  simp [Matrix.mul_apply] at this
+  have h2 : (M 0 0 - 1) * (M 0 0 + 1) = 0 := by ring_nf; linarith
+  rcases mul_eq_zero.mp h2 with h3 | h3
+  · left; linarith
+  · right; linarith
+
+/-- the `1 × 1` matrix acting on `0o` -/
+def OrthFamily.q0 (F : OrthFamily) : Matrix (Fin 1) (Fin 1) ℝ := F.Q 0 true
+
+/-- every such family is an `Action` -/
+def OrthFamily.toAction (F : OrthFamily) : Action where
+  M := fun l p v => applyMat (F.Q l p) v
+  σ := F.q0 0 0
+  hσ := one_by_one F.q0 (F.orth 0 true)
+  len := by intro l p v _; simp [applyMat]
+  normSq := by intro l p v hv; exact sumSq_applyMat _ (F.orth l p) v hv
+  smul := by intro l p c v _; exact applyMat_smul _ c v
+  even0 := by
+    intro a
+    rw [F.even0, applyMat, one_mulVec]
+    exact ofFn_vecOf [a] rfl
+  odd0 := by
+    intro a
+    simp only [applyMat]
+    show List.ofFn (F.q0 *ᵥ vecOf 1 [a]) = [F.q0 0 0 * a]
+    rw [List.ofFn_succ, List.ofFn_zero]
+    simp [mulVec, dotProduct, vecOf]
+
+/-- an element of O(3): rotation matrices `R l` and the inversion sign `s`, acting by `s^{odd} R l` -/
+structure O3Family where
+  R : (l : Nat) → Matrix (Fin (irDim l)) (Fin (irDim l)) ℝ
+  orth : ∀ l, (R l)ᵀ * R l = 1
+  triv : R 0 = 1
+  s : ℝ
+  hs : s = 1 ∨ s = -1
+
+def O3Family.toOrth (G : O3Family) : OrthFamily where
+  Q := fun l p => if p then G.s • G.R l else G.R l
+  orth := by
+    intro l p
+    cases p
+    · simpa using G.orth l
+    · have hs2 : G.s * G.s = 1 := by rcases G.hs with h | h <;> simp [h]
+      simp only [if_true, transpose_smul]
+      rw [Matrix.smul_mul, Matrix.mul_smul, smul_smul, hs2, one_smul, G.orth l]
+  even0 := by simp [G.triv]
+
+theorem O3Family.twisted (G : O3Family) : G.toOrth.toAction.Twisted := by
+  intro l p v _
+  have hσ : G.toOrth.toAction.σ = G.s := by
+    show (G.toOrth.Q 0 true : Matrix (Fin 1) (Fin 1) ℝ) ⟨0, by decide⟩ ⟨0, by decide⟩ = G.s
+    simp only [O3Family.toOrth, if_true, G.triv]
+    show G.s * (1 : Matrix (Fin 1) (Fin 1) ℝ) 0 0 = G.s
+    simp
+  have hs2 : G.s * G.s = 1 := by rcases G.hs with h | h <;> simp [h]
+  rw [hσ]
+  simp only [OrthFamily.toAction, O3Family.toOrth, applyMat]
+  cases p
+  · simp only [Bool.not_false, if_true, Bool.false_eq_true, if_false, smul_mulVec, List.map_ofFn]
+    congr 1; funext i; simp [mul_comm]
+  · simp only [Bool.not_true, Bool.false_eq_true, if_false, if_true, smul_mulVec, List.map_ofFn]
+    congr 1; funext i
+    simp only [Function.comp, Pi.smul_apply, smul_eq_mul]
+    rw [mul_comm, ← mul_assoc, hs2, one_mul]
+
+
+
+/-- reversal of the coordinates: an orthogonal matrix of every size, different from `1` for size ≥ 2 -/
+def revM (n : Nat) : Matrix (Fin n) (Fin n) ℝ := fun i j => if j = i.rev then 1 else 0
+
+theorem revM_orth (n : Nat) : (revM n)ᵀ * revM n = 1 := by
+  ext i j
+  simp only [Matrix.mul_apply, Matrix.transpose_apply, revM, Matrix.one_apply]
+  have : ∀ k : Fin n, ((if i = k.rev then (1:ℝ) else 0) * (if j = k.rev then 1 else 0))
+      = if k = i.rev then (if i = j then 1 else 0) else 0 := by
+    intro k
+    by_cases h : i = k.rev
+    · have hk : k = i.rev := by rw [h, Fin.rev_rev]
+      subst h
+      by_cases h2 : j = k.rev
+      · simp [h2]
+      · have : ¬ k.rev = j := fun e => h2 e.symm
+        simp [h2, this]
+    · have hk : ¬ k = i.rev := by intro e; apply h; rw [e, Fin.rev_rev]
+      simp [h, hk]
+  simp only [this, Finset.sum_ite_eq', Finset.mem_univ, if_true]
+
+/-- a non-trivial element of the hypothesis class: coordinate reversal on every `l ≥ 1`, inversion sign `-1` -/
+def O3Family.example : O3Family where
+  R := fun l => if l = 0 then 1 else revM (irDim l)
+  orth := by intro l; split <;> simp [revM_orth]
+  triv := by simp
+  s := -1
+  hs := Or.inr rfl
+
+
+
+/-! ### the inversion as an `Action`, and the grid witness -/
+
+theorem sumSq_map_neg (v : List ℝ) : sumSq (v.map (· * -1)) = sumSq v := by
+  induction v with
+  | nil => rfl
+  | cons a as ih => simp only [List.map_cons, sumSq, ih]; ring
+
+/-- the inversion `x ↦ -x` of O(3): odd irreps change sign, even ones are fixed -/
+def Action.inversion : Action where
+  M := fun _ p v => if p then v.map (· * -1) else v
+  σ := -1
+  hσ := Or.inr rfl
+  len := by intro l p v h; split <;> simp [h]
+  normSq := by
+    intro l p v _
+    split
+    · exact sumSq_map_neg v
+    · rfl
+  smul := by intro l p c v _; split <;> simp [List.map_map, Function.comp_def, mul_comm]
+  even0 := by intro a; simp
+  odd0 := by intro a; simp
+
+theorem Action.inversion_twisted : Action.inversion.Twisted := by
+  intro l p v _
+  cases p <;> simp [Action.inversion, List.map_map]
+
+/-- the grid of the constructor's parity test: `torch.linspace(0, 10, 256)` -/
+def gridPoint (k : Nat) : ℝ := 10 * (k : ℝ) / 255
+
+/-- the even-test of the constructor evaluated exactly: `max_k |φ(x_k) - φ(-x_k)| < 1e-5` -/
+def GridEven (phi : ℝ → ℝ) : Prop := ∀ k : Nat, k < 256 → |phi (gridPoint k) - phi (-gridPoint k)| < 1 / 100000
+
+/-- even on the grid, not even on ℝ -/
+def wit (x : ℝ) : ℝ := x * x + 1 / 100 * Real.sin (Real.pi * (51 / 2) * x)
+
+theorem wit_gridEven : GridEven wit := by
+  intro k _
+  have h1 : Real.pi * (51 / 2) * gridPoint k = (k : ℝ) * Real.pi := by unfold gridPoint; ring
+  have h2 : Real.pi * (51 / 2) * -gridPoint k = -((k : ℝ) * Real.pi) := by unfold gridPoint; ring
+  simp only [wit, h1, h2, Real.sin_neg, Real.sin_nat_mul_pi]
+  norm_num
+
+theorem wit_not_even : wit (-(1 / 51)) ≠ wit (1 / 51) := by
+  have h1 : Real.pi * (51 / 2) * (1 / 51) = Real.pi / 2 := by ring
+  have h2 : Real.pi * (51 / 2) * -(1 / 51) = -(Real.pi / 2) := by ring
+  simp only [wit, h1, h2, Real.sin_neg, Real.sin_pi_div_two]
+  norm_num
+
+
+
+/-! ### block-wise reading of `Activation.forward` -/
+
+/-- block `i` of the output: the activation applied to every entry of a block that carries one,
+an untouched copy of the block otherwise (`hC`: the constructor accepted, so blocks with an activation are scalar) -/
+theorem actBlocks_block (irr : Irreps) (acts : List (Option (Act ℝ))) (dets : List (Option Detect))
+    (hS : Specs acts dets) (out : Irreps) (hC : actOutLoop irr dets = .ok out) (hlen : irr.length = dets.length)
+    (x y : List ℝ) (hx : x.length = dim irr) (hy : actBlocks irr acts x = .ok y) (i : Nat) (hi : i < irr.length) :
+    block irr i y = match acts[i]? with
+      | some (some a) => (block irr i x).map a.apply
+      | _ => block irr i x := by
+  induction irr generalizing acts dets out x y i with
+  | nil => simp at hi
+  | cons b rest ih =>
+    obtain ⟨mul, l, p⟩ := b
+    simp only [dim_cons, mulIrDim] at hx
+    cases hS with
+    | nil => simp at hlen
+    | @none as ds hS' =>
+      simp only [List.length_cons, Nat.add_right_cancel_iff] at hlen
+      simp only [actOutLoop] at hC
+      cases hrec : actOutLoop rest ds with
+      | error e => simp [hrec, Except.map] at hC
+      | ok out' =>
+        simp only [actBlocks] at hy
+        rw [if_neg (by omega)] at hy
+        cases hr : actBlocks rest as (x.drop (mul * irDim l)) with
+        | error e => simp [hr, Except.map] at hy
+        | ok y' =>
+          simp only [hr, Except.map, Except.ok.injEq] at hy
+          subst hy
+          have hl2 : (x.take (mul * irDim l)).length = mul * irDim l := by simp; omega
+          cases i with
+          | zero => simp [block_zero, mulIrDim, List.take_left' hl2]
+          | succ i =>
+            simp only [List.length_cons, Nat.add_lt_add_iff_right] at hi
+            simp only [block_succ, mulIrDim, List.drop_left' hl2, List.getElem?_cons_succ]
+            exact ih as ds hS' out' hrec hlen _ y' (by simp; omega) hr i hi
+    | @some a d as ds hT hS' =>
+      simp only [List.length_cons, Nat.add_right_cancel_iff] at hlen
+      simp only [actOutLoop] at hC
+      by_cases hl0 : l = 0
+      · subst hl0
+        simp only [bne_self_eq_false, Bool.false_eq_true, if_false] at hC
+        cases hq : (if p then d.pAct else some p) with
+        | none => simp [hq] at hC
+        | some q =>
+          simp only [hq] at hC
+          cases hrec : actOutLoop rest ds with
+          | error e => simp [hrec, Except.map] at hC
+          | ok out' =>
+            simp only [irDim, Nat.mul_zero, Nat.zero_add, Nat.mul_one] at hx
+            simp only [actBlocks, irDim, Nat.mul_zero, Nat.zero_add, Nat.mul_one] at hy
+            rw [if_neg (by omega)] at hy
+            cases hr : actBlocks rest as (x.drop mul) with
+            | error e => simp [hr, Except.map] at hy
+            | ok y' =>
+              simp only [hr, Except.map, Except.ok.injEq] at hy
+              subst hy
+              have hl2 : ((x.take mul).map a.apply).length = mul := by simp; omega
+              cases i with
+              | zero =>
+                simp only [block_zero, mulIrDim, irDim, Nat.mul_zero, Nat.zero_add, Nat.mul_one,
+                  List.take_left' hl2, List.getElem?_cons_zero]
+              | succ i =>
+                simp only [List.length_cons, Nat.add_lt_add_iff_right] at hi
+                simp only [block_succ, mulIrDim, irDim, Nat.mul_zero, Nat.zero_add, Nat.mul_one,
+                  List.drop_left' hl2, List.getElem?_cons_succ]
+                exact ih as ds hS' out' hrec hlen _ y' (by simp; omega) hr i hi
+      · have : (l != 0) = true := by simpa using hl0
+        simp [this] at hC
+
+/-! ### the value of `Gate.forward` -/
+
+/-- `Gate.forward` = activated scalars followed by (gated copies × their own activated gate scalars), where the three
+parts are the blocks selected by the three `_Sortcut` instructions -/
+theorem gateFwd_formula (irrS irrG irrY : Irreps)
+    (actS : List (Option (Act ℝ))) (detS : List (Option Detect)) (hSS : Specs actS detS)
+    (actG : List (Option (Act ℝ))) (detG : List (Option Detect)) (hSG : Specs actG detG)
+    (info : GateInfo) (hC : gateCtor irrS detS irrG detG irrY = .ok info)
+    (x : List ℝ) (hx : x.length = dim info.irrepsIn) :
+    ∃ iS iG iY S' G', info.sc.instructions = [iS, iG, iY] ∧
+      activationFwd irrS actS (selected info.sc.sorted x iS) = .ok S' ∧
+      activationFwd irrG actG (selected info.sc.sorted x iG) = .ok G' ∧
+      G'.length = numIrreps irrY ∧ (selected info.sc.sorted x iY).length = dim irrY ∧
+      gateFwd irrS actS irrG actG irrY x = .ok (S' ++ ewMul irrY G' (selected info.sc.sorted x iY)) := by
+  unfold gateCtor at hC
+  cases hg1 : lmaxGuard irrG .gateGates with
+  | error e => simp [hg1] at hC
+  | ok u1 =>
+  cases hg2 : lmaxGuard irrS .gateScalars with
+  | error e => simp [hg1, hg2] at hC
+  | ok u2 =>
+  simp only [hg1, hg2] at hC
+  split at hC
+  · simp at hC
+  rename_i hnum
+  have hnum' : numIrreps irrG = numIrreps irrY := by simpa using hnum
+  cases hcs : activationCtor irrS detS with
+  | error e => simp [hcs] at hC
+  | ok scalarsOut =>
+  cases hcg : activationCtor irrG detG with
+  | error e => simp [hcs, hcg] at hC
+  | ok gatesOut =>
+  simp only [hcs, hcg, Except.ok.injEq] at hC
+  subst hC
+  have hW := sortcut_wellFormed [irrS, irrG, irrY]
+  have hxs : x.length = dim (sortcut [irrS, irrG, irrY]).sorted := by
+    simpa [GateInfo.irrepsIn, sortcut_irrepsIn, dim_simplify] using hx
+  have hE := extractFwd_equivariant Action.inversion _ x hxs _ _ hW
+  obtain ⟨i1, i2, i3, hins⟩ : ∃ i1 i2 i3, (sortcut [irrS, irrG, irrY]).instructions = [i1, i2, i3] := by
+    simp [sortcut, consecRanges]
+  rw [sortcut_outs, hins] at hW
+  simp only [List.map_cons, List.map_nil] at hW
+  obtain ⟨w1, hW⟩ := List.forall₂_cons.mp hW
+  obtain ⟨w2, hW⟩ := List.forall₂_cons.mp hW
+  obtain ⟨w3, -⟩ := List.forall₂_cons.mp hW
+  rw [hins] at hE
+  simp only [List.map_cons, List.map_nil, sortcut_outs] at hE
+  obtain ⟨hE1, -⟩ := hE
+  have lS : (selected (sortcut [irrS, irrG, irrY]).sorted x i1).length = dim irrS := by
+    rw [selected, length_flatten_blocks _ x hxs _ _ w1, dim_simplify]
+  have lG : (selected (sortcut [irrS, irrG, irrY]).sorted x i2).length = dim irrG := by
+    rw [selected, length_flatten_blocks _ x hxs _ _ w2, dim_simplify]
+  have lY : (selected (sortcut [irrS, irrG, irrY]).sorted x i3).length = dim irrY := by
+    rw [selected, length_flatten_blocks _ x hxs _ _ w3, dim_simplify]
+  obtain ⟨S', hS1, -, -⟩ := activationFwd_equivariant Action.inversion irrS actS detS hSS scalarsOut hcs _ lS
+  obtain ⟨G', hG1, hG2, -⟩ := activationFwd_equivariant Action.inversion irrG actG detG hSG gatesOut hcg _ lG
+  have u1eq : u1 = () := rfl
+  subst u1eq
+  have scG := lmaxGuard_scalar irrG _ hg1
+  obtain ⟨hlG, hloopG⟩ := activationCtor_ok hcg
+  have hls := actOutLoop_ls irrG detG gatesOut hlG hloopG
+  have scG' : ∀ c ∈ expand gatesOut, c.1 = 0 := by
+    intro c hc
+    have : c.1 ∈ (expand gatesOut).map (·.1) := List.mem_map_of_mem hc
+    rw [hls] at this
+    obtain ⟨c', hc', h⟩ := List.mem_map.mp this
+    rw [← h]; exact scG c' hc'
+  have hn : numIrreps gatesOut = numIrreps irrG := by
+    have := congrArg List.length hls
+    simpa [length_expand] using this
+  have lG' : G'.length = numIrreps irrY := by
+    rw [hG2, ← cdim_expand, scalar_cdim _ scG', length_expand, hn, hnum']
+  have hdimG : dim irrG = numIrreps irrG := by
+    rw [← cdim_expand, scalar_cdim _ scG, length_expand]
+  refine ⟨i1, i2, i3, S', G', hins, hS1, hG1, lG', lY, ?_⟩
+  unfold gateFwd
+  simp only [sortcut_outs, hins, List.map_cons, List.map_nil, hE1, hS1]
+  by_cases hG0 : (selected (sortcut [irrS, irrG, irrY]).sorted x i2).length = 0
+  · have hY0 : expand irrY = [] := by
+      apply List.eq_nil_of_length_eq_zero; rw [length_expand, ← hnum', ← hdimG, ← lG, hG0]
+    simp [hG0, ewMul_eq, hY0, ewMulC]
+  · simp [hG0, hG1]
 
 
 end
